@@ -1,5 +1,6 @@
 import J5V.Bcl.FmtProofs
 import J5V.Bcl.LexShapeProofs
+import J5V.Bcl.DescProofs
 import J5V.Generated.BcltokensFacts
 /-!
 # C09 — formatter preserves meaning, is idempotent and emits parseable source
@@ -163,7 +164,38 @@ theorem C09_token_inv (cls : Cls) (hsp : cls.isSpace cSP = true) (c : Cur) (t : 
     rwa [hty] at this
   all_goals simp [TokenType.isLiteral, TokenType.isOperator] at hkind
 
+/-! ## Descriptions: same words and paragraph breaks; re-flowing is stable
+
+`itemsOf cls lines` reads lines as items (the words of each line by `strings.Fields`, a marker for each
+blank line); `canon` drops leading and repeated blank-line markers: the words in order and the
+paragraph breaks of a description. -/
+
+/-- Re-flowing a description keeps its words and paragraph breaks: the canonical items of
+`strings.Join(reformatDescription(v, w), "\n")` — which is what the lexer + `popDescription` produce
+from the formatted lines — equal those of `v`. Any width (also ≤ 0), any value. -/
+theorem C09_description_words (cls : Cls) (hsp : cls.isSpace cSP = true) (v : List Rune)
+    (maxWidth : Int) :
+    canon (itemsOf cls (splitOn cNL (joinWith [cNL] (reformatDescription cls v maxWidth)))) =
+      canon (itemsOf cls (splitOn cNL v)) :=
+  reformat_preserves_words cls hsp v maxWidth
+
+/-- Formatting a second time changes nothing in a description: re-flowing the already re-flowed text at
+the same width gives the same lines. -/
+theorem C09_description_reflow_stable (cls : Cls) (hsp : cls.isSpace cSP = true) (v : List Rune)
+    (maxWidth : Int) :
+    reformatDescription cls (joinWith [cNL] (reformatDescription cls v maxWidth)) maxWidth =
+      reformatDescription cls v maxWidth :=
+  reformat_stable cls hsp v maxWidth
+
 /-! ## Non-vacuity -/
+
+/-- a description with odd spacing, a tab, leading and repeated blank lines, re-flowed at width 6 -/
+example : reformatDescription asciiCls (ofAscii "\n aa   bb\tcc\n\n\n dd") 6 =
+    [ofAscii "aa bb", ofAscii "cc", [], ofAscii "dd"] := by decide +kernel
+example : canon (itemsOf asciiCls (splitOn cNL (ofAscii "\n aa   bb\tcc\n\n\n dd"))) =
+    [.word (ofAscii "aa"), .word (ofAscii "bb"), .word (ofAscii "cc"), .blank, .word (ofAscii "dd")] := by
+  decide +kernel
+
 
 /-- `a/b"c` is a well-formed regex literal -/
 example : RegexLitWF [97, 47, 98, 34, 99] :=
